@@ -52,6 +52,7 @@ type Ctx struct {
 	caseInfo  []string // one JSON line per case, for replays
 	shard     int
 	caseBytes int
+	parked    map[string]*caseBuf
 }
 
 func newCtx(id string, seed uint64, tier, out, replay string) *Ctx {
@@ -102,10 +103,33 @@ func (c *Ctx) Violate(what, key string, replay any) {
 // CoqSetup declares how case files are headed: the modules to import, the Coq type of a
 // case and the boolean function that says model and implementation agree on it.
 func (c *Ctx) CoqSetup(imports, caseType, okFn string) {
-	if c.caseType != "" && (c.caseType != caseType || c.okFn != okFn) {
-		c.flushCases()
+	// one open case file per kind of case: a check that alternates between kinds of cases fills
+	// several files side by side instead of starting a new file at every switch
+	if c.caseType != "" {
+		c.parkCases()
 	}
 	c.imports, c.caseType, c.okFn = imports, caseType, okFn
+	if b, ok := c.parked[imports+"|"+caseType+"|"+okFn]; ok {
+		c.cases, c.caseInfo, c.caseBytes = b.cases, b.info, b.bytes
+		delete(c.parked, imports+"|"+caseType+"|"+okFn)
+	}
+}
+
+type caseBuf struct {
+	imports, caseType, okFn string
+	cases, info             []string
+	bytes                   int
+}
+
+func (c *Ctx) parkCases() {
+	if len(c.cases) == 0 {
+		return
+	}
+	if c.parked == nil {
+		c.parked = map[string]*caseBuf{}
+	}
+	c.parked[c.imports+"|"+c.caseType+"|"+c.okFn] = &caseBuf{c.imports, c.caseType, c.okFn, c.cases, c.caseInfo, c.caseBytes}
+	c.cases, c.caseInfo, c.caseBytes = nil, nil, 0
 }
 
 // Case adds one correspondence case (a Coq term of the declared case type) together with a
@@ -145,8 +169,25 @@ func (c *Ctx) flushCases() {
 	c.caseBytes = 0
 }
 
-func (c *Ctx) finish() error {
+// flushAll writes the current and every parked case file (in a fixed order).
+func (c *Ctx) flushAll() {
 	c.flushCases()
+	keys := make([]string, 0, len(c.parked))
+	for k := range c.parked {
+		keys = append(keys, k)
+	}
+	sort.Strings(keys)
+	for _, k := range keys {
+		b := c.parked[k]
+		c.imports, c.caseType, c.okFn = b.imports, b.caseType, b.okFn
+		c.cases, c.caseInfo, c.caseBytes = b.cases, b.info, b.bytes
+		c.flushCases()
+	}
+	c.parked = nil
+}
+
+func (c *Ctx) finish() error {
+	c.flushAll()
 	c.Res.DistinctNontrivial = len(c.nt)
 	if c.Res.Samples == nil {
 		c.Res.Samples = []any{}
